@@ -29,6 +29,7 @@ type CandSpec struct {
 	Cluster   int    `json:"cluster"` // -1 absent, 0 empty, n = n entries
 	Source    uint32 `json:"source"`
 	NextHop   uint32 `json:"next_hop"`
+	OwnAS     bool   `json:"own_as,omitempty"` // the local ASN appears in the AS_PATH (C05 tables)
 }
 
 func (c CandSpec) String() string {
@@ -63,7 +64,13 @@ func (c CandSpec) build(idx int) *route.Path {
 	for i := range asns {
 		asns[i] = uint32(100 + i)
 	}
+	if c.OwnAS {
+		asns = append(asns, 65000)
+	}
 	ap := types.NewASPath(asns)
+	if len(asns) == 0 {
+		ap = &types.ASPath{} // an empty AS_PATH has no segment (NewASPath would make one empty segment)
+	}
 	coms := types.Communities{uint32(0xfd000000 + idx)}
 	p := &route.Path{Type: route.BGPPathType, BGPPath: &route.BGPPath{
 		BGPPathA: &route.BGPPathA{
